@@ -236,7 +236,9 @@ class Server:
             env.update({"PYTHONPATH": "/repo", "VERIF_GATE": self.gate_path, "VERIF_GEN": "g1", "PYTHONDONTWRITEBYTECODE": "1",
                         "PYTHONUNBUFFERED": "1"})
             env.update(self.env_extra)
-            self.proc = subprocess.Popen([PY, "-m", "gunicorn", "-c", self.conf, "app:app"], cwd=self.dir, env=env,
+            # the console script, not `python -m gunicorn`: on USR2 the master re-executes sys.argv, and with -m that is
+            # gunicorn/__main__.py, which puts the package directory (with its own http/ package) first on sys.path
+            self.proc = subprocess.Popen([PY, "/venv/bin/gunicorn", "-c", self.conf, "app:app"], cwd=self.dir, env=env,
                                          stdin=subprocess.DEVNULL, stdout=open(os.path.join(self.dir, "stdout.log"), "ab"),
                                          stderr=subprocess.STDOUT, start_new_session=True)
             self.master_pid = self.proc.pid
